@@ -242,6 +242,15 @@ def build_idx(spec):
     if k == 'date':
         return sf.IndexDate(labels)
     if k == 'ih':
+        # labels that form a full product in product order are built by from_product (ONE inner Index object shared by all
+        # outer labels): the object identity of nodes must not leak into equality, set operations or alignment
+        if labels and all(isinstance(l, tuple) and len(l) == 2 for l in labels):
+            outer = list(dict.fromkeys(l[0] for l in labels))
+            inner = list(dict.fromkeys(l[1] for l in labels))
+            if len(outer) > 1 and labels == [(o, i) for o in outer for i in inner]:
+                ih = sf.IndexHierarchy.from_product(outer, inner)
+                if list(ih) == labels:
+                    return ih
         return sf.IndexHierarchy.from_labels(labels, depth_reference=spec.get('depth', 2))
     raise ValueError(k)
 
@@ -322,7 +331,7 @@ POOLS = {
     'date': ['d:2021-01-01[D]', 'd:2021-01-02[D]', 'd:2021-03-05[D]', 'd:2020-12-31[D]', 'd:2021-02-01[D]', 'd:2022-01-01[D]'],
     'float': ['f:0.5', 'f:1.0', 'f:2.0', 'f:-1.5', 'f:3.0', 'f:10.0'],
     'tuple': ['t:(s:"a" i:1)', 't:(s:"a" i:2)', 't:(s:"b" i:1)', 's:"a"', 's:"c"', 't:(s:"c" i:0)'],
-    'ih': ['t:(s:"a" i:1)', 't:(s:"a" i:2)', 't:(s:"b" i:1)', 't:(s:"b" i:3)', 't:(s:"c" i:2)', 't:(s:"c" i:1)'],
+    'ih': ['t:(s:"a" i:1)', 't:(s:"a" i:2)', 't:(s:"b" i:1)', 't:(s:"b" i:3)', 't:(s:"c" i:2)', 't:(s:"c" i:1)', 't:(s:"b" i:2)', 't:(s:"a" i:3)'],
     'ihs': ['t:(s:"a" s:"x")', 't:(s:"a" s:"y")', 't:(s:"b" s:"x")', 't:(s:"b" s:"z")', 't:(s:"c" s:"y")'],
     'ihi': ['t:(i:1 i:1)', 't:(i:1 i:2)', 't:(i:2 i:1)', 't:(i:0 i:3)', 't:(i:2 i:2)'],
     'ihm': ['t:(s:"a" i:1)', 't:(i:1 s:"a")', 't:(s:"b" i:1)', 't:(i:2 i:2)', 't:(s:"c" s:"a")'],
@@ -513,6 +522,20 @@ def cases(ctx):
         pool = rng.choice(['ih', 'ihs', 'ihi', 'ihm'])
         a, b, rel = rand_pair_labels(rng, pool)
         yield {'k': 'ih', 'pool': pool, 'a': a, 'b': b, 'rel': rel, 'n': len(a) + len(b)}
+    # product-shaped hierarchies (built by from_product: shared inner Index objects) against a tree that differs in ONE label
+    prng = ctx.rng('product')
+    for _ in range(120 if quick else 1200):
+        outers = ['a', 'b', 'c'][: prng.randint(2, 3)]
+        inners = [1, 2, 3][: prng.randint(2, 3)]
+        a = [tok((o, i)) for o in outers for i in inners]
+        b = list(a)
+        pos = prng.randrange(len(b))
+        o_, i_ = untok(b[pos])
+        if prng.random() < 0.8:
+            b[pos] = tok((o_, 9))
+        if prng.random() < 0.3:
+            a, b = b, a
+        yield {'k': 'ih', 'pool': 'ih', 'a': a, 'b': b, 'rel': 'product-one-label', 'n': len(a) + len(b)}
 
     for _ in range(400 if quick else 4000):
         pool = rng.choice(['int', 'str', 'mixed', 'date', 'ih'])
